@@ -14,7 +14,7 @@ EXPLANATION = (
     "==,<,> at the carrier type in operand order; Branch::select(c,a,b) is if c {a} else {b} and receives slice positions "
     "2,3; floats go from_bits -> IEEE operator -> to_bits at the variant's width; rendering is ToString on the carrier / "
     "the exact i128 value; IntegerLiteral::with_type uses TryInto<carrier> (std's exact range check) and "
-    "FloatLiteral::with_type's acceptance predicate has the truth table of !finite(v) || finite(v as f32); the checker "
+    "FloatLiteral::with_type's acceptance predicate has the truth table of finite(v as f32); the checker "
     "stores a literal only from the Some edge of with_type, reports OutOfRange on the None edge and defaults to "
     "Int64 / Float64; no numeric `as` cast occurs in the numeric functions."
 )
@@ -369,7 +369,7 @@ def rule_to_string(ctx, car):
 def rule_with_type(ctx, car):
     rule = "literal-range"
     ctx.rule(rule, "IntegerLiteral::with_type(X) = Self::X(value().try_into::<carrier(X)>().ok()?); FloatLiteral::with_type "
-                   "accepts Float32 iff !finite(v) || finite(v as f32) and stores (v as f32).to_bits(); Float64 stores v.to_bits()")
+                   "accepts Float32 iff finite(v as f32) and stores (v as f32).to_bits(); Float64 stores v.to_bits()")
     fn = "zydeco_syntax::IntegerLiteral::with_type"
     h = ctx.need_hir(rule, fn)
     loc = ctx.facts.bodies()[fn]["loc"]
@@ -423,13 +423,18 @@ def rule_with_type(ctx, car):
             pred = tail["recv"]
             atoms = {"(core::f64::<impl f64>::is_finite %s)" % v: "A", "(core::f32::<impl f32>::is_finite %s)" % nar: "B"}
             table = _truth_table(pred, sub, atoms)
-            want_table = {(x, y): ((not x) or y) for x, y in itertools.product((False, True), repeat=2)}
+            # the property: accepted at Float32 exactly when the value stays finite after narrowing. finite(v as f32) implies
+            # finite(v), so `B` and `A && B` are the same predicate; `!A || B` (accept what is already infinite) is not
+            want_tables = [{(x, y): y for x, y in itertools.product((False, True), repeat=2)},
+                           {(x, y): (x and y) for x, y in itertools.product((False, True), repeat=2)}]
             store = A.sexpr(tail["args"][0], sub)
             want_store = "(closure (zydeco_syntax::FloatLiteral::from_f32_bits (core::f32::<impl f32>::to_bits %s)))" % nar
             if table is None:
                 why = "the acceptance predicate %s is not a boolean combination of is_finite(value) and is_finite(value as f32)" % A.sexpr(pred, sub)
-            elif table != want_table:
-                why = "the acceptance predicate %s has truth table %s, expected !A || B" % (A.sexpr(pred, sub), table)
+            elif table not in want_tables:
+                why = ("the acceptance predicate %s has truth table %s over A = finite(v), B = finite(v as f32); expected B: a literal "
+                       "is accepted at Float32 exactly when it stays finite after narrowing (`1e999 : Float32` must be rejected)"
+                       % (A.sexpr(pred, sub), table))
             elif store != want_store:
                 why = "the stored bits are %s, expected %s" % (store, want_store)
             else:
@@ -437,7 +442,17 @@ def rule_with_type(ctx, car):
         else:
             why = "arm is %s" % A.sexpr(tail, sub)
     ctx.check(ok, rule, "float:Float32", "FloatLiteral::with_type(Float32): %s" % why, loc,
-              detail={"predicate": "!finite(v) || finite(v as f32)", "stored": "(v as f32).to_bits()"})
+              detail={"predicate": "finite(v as f32)", "stored": "(v as f32).to_bits()"})
+    # "the run-time value is exactly the literal": the Float32 value is obtained by narrowing the Float64 reading of the text, i.e. the
+    # decimal text is rounded twice (text -> f64 -> f32). A literal just above an f32 midpoint comes out one ulp low.
+    twice = a is not None and ("f64->f32" in A.sexpr(a["body"], env) or any(
+        H.kind(x) == "Cast" and (x.get("from"), x.get("ty")) == ("f64", "f32") for x in H.walk(a["body"])))
+    if twice:
+        ctx.violation(rule, "float:Float32:narrowed-from-f64", "FloatLiteral::with_type(Float32) computes the Float32 value as "
+                      "`(text parsed as f64) as f32`: the decimal text is rounded twice, so a literal just above the midpoint of two "
+                      "Float32 values (1.00000005960464477539062500000001) becomes the lower one (1.0 instead of 1.0000001), and a "
+                      "literal just below the Float32 overflow midpoint (3.4028235677973366e38) is rejected although it rounds to "
+                      "f32::MAX", loc)
 
 
 def _truth_table(expr, env, atoms):
